@@ -3,6 +3,8 @@ use crate::harness::Config;
 pub mod c01;
 pub mod c02;
 pub mod c03;
+pub mod c04;
+pub mod c05;
 pub mod c12;
 pub mod c14;
 pub mod textgen;
@@ -12,6 +14,8 @@ pub fn dispatch(id: &str, cfg: Config) -> i32 {
         "C01" => crate::run_prop(c01::C01, cfg),
         "C02" => crate::run_prop(c02::C02, cfg),
         "C03" => crate::run_prop(c03::C03, cfg),
+        "C04" => crate::run_prop(c04::C04, cfg),
+        "C05" => crate::run_prop(c05::C05, cfg),
         "C12" => crate::run_prop(c12::C12, cfg),
         "C14" => crate::run_prop(c14::C14, cfg),
         _ => {
